@@ -198,7 +198,7 @@ func checkC19(c C19Case, o *Obs) error {
 	for i, n := range nodes {
 		index[n] = i
 	}
-	for _, tc := range []struct {
+	for tci, tc := range []struct {
 		name string
 		it   func() func(func(*newick.Node) bool)
 		want []*newick.Node
@@ -219,10 +219,29 @@ func checkC19(c C19Case, o *Obs) error {
 			defer func() { done <- recover() }()
 			old := debug.SetMaxStack(256 << 10)
 			defer debug.SetMaxStack(old)
-			it(func(n *newick.Node) bool {
-				got = append(got, n)
-				return len(got) <= len(nodes)+1
-			})
+			run := func() {
+				it(func(n *newick.Node) bool {
+					got = append(got, n)
+					return len(got) <= len(nodes)+1
+				})
+			}
+			if (len(nodes)+tci)%2 == 1 {
+				// every other time the traversal is started from the loop body of another
+				// traversal (of a small tree) that is still in progress
+				small := &newick.Node{Name: "outer", Children: []*newick.Node{{Name: "x"}, {Name: "y"}}}
+				k := 0
+				for range small.PostOrder() {
+					if k == 1 {
+						run()
+					}
+					k++
+				}
+				if k != 3 {
+					panic(fmt.Sprintf("the outer traversal of a three-node tree, in whose loop body this traversal ran, yielded %d nodes", k))
+				}
+				return
+			}
+			run()
 		}()
 		if p := <-done; p != nil {
 			return fmt.Errorf("%s panicked: %v", tc.name, p)
